@@ -44,21 +44,6 @@ import (
 
 // verifMMulMod: a * b mod m for a, b < m.
 func verifMMulMod(a, b, m uint64) uint64 {
-	if m>>15 == 0 && verifSerialMul {
-		// interleaved (bit-serial) modular multiplication in 16 bits: a much smaller circuit than a
-		// 32-bit multiplier followed by a 32-bit divider
-		a16, b16, m16 := uint16(a), uint16(b), uint16(m)
-		acc := uint16(0)
-		for i := bits.Len64(m) - 1; i >= 0; i-- {
-			acc <<= 1
-			acc -= m16 & uint16(-verifB2U(acc >= m16))
-			t := acc + a16
-			t -= m16 & uint16(-verifB2U(t >= m16))
-			sel := uint16(-verifB2U((b16>>uint(i))&1 == 1))
-			acc = t&sel | acc&^sel
-		}
-		return uint64(acc)
-	}
 	if m>>16 == 0 {
 		// the mask keeps the high bits of the residue SYNTACTICALLY zero, so that the next multiplier
 		// and divider are bit-blasted at the width of the modulus rather than at 32 bits
